@@ -106,18 +106,19 @@ theorem history_items (its : List (Option NC × Rat)) (t : Track) (hi : t.instru
     rw [ih1, h3]
     cases ok <;> simp [List.zip_cons_cons]
 
-/-- a bar opened by `add_notes` is opened only after a full bar and inherits that bar's key and meter -/
+/-- a bar opened by `add_notes` is opened only after a full bar and inherits that bar's key and meter - and with the meter its
+    length: the new bar is full after exactly as much music as its predecessor -/
 theorem new_bar_inherits (t : Track) (h : t.bars ≠ []) :
     (Track.prepared t).length = t.bars.length ∨
     (∃ last fresh, t.bars.getLast? = some last ∧ last.isFull = true ∧ Track.prepared t = t.bars ++ [fresh] ∧
-      fresh.key = last.key ∧ fresh.meter = last.meter ∧ fresh.entries = []) := by
+      fresh.key = last.key ∧ fresh.meter = last.meter ∧ fresh.length = last.length ∧ fresh.entries = []) := by
   unfold Track.prepared
   have he : t.bars.isEmpty = false := by cases hb : t.bars with | nil => exact absurd hb h | cons a b => rfl
   simp only [he, Bool.false_eq_true, if_false]
   split
   · rename_i hf
     right
-    refine ⟨t.bars.getLast?.getD {}, _, ?_, hf, rfl, rfl, rfl, rfl⟩
+    refine ⟨t.bars.getLast?.getD {}, _, ?_, hf, rfl, rfl, rfl, rfl, rfl⟩
     rw [List.getLast?_eq_some_getLast h]; simp
   · left; rfl
 
